@@ -177,12 +177,15 @@ def r11(ctx: Ctx):
       if isinstance(x, ast.Assign) and isinstance(x.value, ast.Call) and unparse(x.value.func).split('.')[-1] in _QUEUE_MAKERS and (
           isinstance(x.targets[0], ast.Name) and x.targets[0].id in made) and x.value.args:
         feeders |= {y.id for y in ast.walk(x.value.args[0]) if isinstance(y, ast.Name)}
-    sized = False
-    for c in pools:
+    # the pool is created by the FIRST of these calls that runs (the later ones get it passed in):
+    # every call that can come first — i.e. every one that is not preceded, line-wise, by a sized
+    # one — must be sized
+    def is_sized(c):
       mw = kwarg(c, 'max_workers')
-      if mw is not None and any(isinstance(y, ast.Call) and unparse(y.func) == 'len' and y.args and isinstance(
-          y.args[0], ast.Name) and y.args[0].id in feeders for y in ast.walk(mw)):
-        sized = True
+      return mw is not None and any(isinstance(y, ast.Call) and unparse(y.func) == 'len' and y.args and isinstance(
+          y.args[0], ast.Name) and y.args[0].id in feeders for y in ast.walk(mw))
+    pools = sorted(pools, key=lambda c: c.lineno)
+    sized = is_sized(pools[0])
     if sized:
       ctx.ok(rule, fi, f'{fi.name}: own pool sized with the number of feeders', pools[0])
     else:
@@ -514,6 +517,9 @@ VARIANTS = [
     B('revert-piter-pool-sized-for-feeders', 'utils/iter_utils.py',
       '    thread_pool = _get_thread_pool(\n        thread_pool, max_workers=len(input_iterators) + max(max_parallism, 1)\n    )',
       '    thread_pool = _get_thread_pool(thread_pool)', 'R-C13-11'),
+    B('piter-small-pool-created-first', 'utils/iter_utils.py',
+      '  input_iterable = None\n  # No parallelism at all, use the input iterator directly.',
+      '  input_iterable = None\n  thread_pool = _get_thread_pool(thread_pool, max_workers=1 + max_parallism)\n  # No parallelism at all, use the input iterator directly.', 'R-C13-11'),
     B('piter-pool-sized-like-pmap', 'utils/iter_utils.py',
       '    thread_pool = _get_thread_pool(\n        thread_pool, max_workers=len(input_iterators) + max(max_parallism, 1)\n    )',
       '    thread_pool = _get_thread_pool(thread_pool, max_workers=1 + max_parallism)', 'R-C13-11'),
